@@ -25,7 +25,7 @@ def check(run, tier):
         progs += [p for p in targeted.split_programs(dev) if "multidisp" not in p["id"]]
         progs += [p for p in targeted.round2_programs(dev) if "nosplit" in p["id"] or "same-format" in p["id"] or "mix-in-place" in p["id"]]
     for dev in ("evo", "fluent"):
-        progs += [p for p in targeted.config_programs(dev) if "diti" in p["id"] or "autosplit" in p["id"]]
+        progs += targeted.config_programs(dev)
     for dev in ("evo", "fluent"):
         progs += [p for p in targeted.shape_programs(dev) if "broadcast" in p["id"]]
     # volumes far below and far above what the records can print (1/1024 and 2^-40 microlitre, units of 1024 microlitres)
@@ -47,6 +47,14 @@ def check(run, tier):
                                       weights={"transfer": 1, "distribute": 0, "aspirate": 0, "dispense": 0, "add": 0, "remove": 0},
                                       transfer_kw={"nmax": 12, "kwargs": True})
         progs.append(p)
+    # transfers that must be refused (a volume beyond what the wells allow, a negative volume) under every configuration
+    r5 = rng("C07-faults")
+    for i in range(60 if q else 1200):
+        dev = "evo" if i % 2 == 0 else "fluent"
+        progs.append(programs.worklist_program(r5, f"C07/f{i}", dev, r5.randint(1, 3), unit=Fraction(1), maxunits=60, wlmax=r5.choice([3, 5, 70]),
+                                               comps=False, small=False, autosplit=(i % 4 < 2), fault=0.5, reconfig_prob=0.2,
+                                               weights={"transfer": 1, "distribute": 0, "aspirate": 0, "dispense": 0, "add": 0, "remove": 0},
+                                               transfer_kw={"nmax": 6}))
     # specification -> code: behaviours enumerated by TLC on the bounded model, replayed on the implementation
     for cfg in ("MC_TwinGen_transferq1",) if q else ("MC_TwinGen_transferq1", "MC_TwinGen_transfer1"):
         mprogs, res = behaviours.generate(cfg, timeout=3000)
